@@ -29,7 +29,11 @@ def pAnswer : P (LPAnswer Q) := do
   | "I" => pure .infeasible
   | "U" => pure .unbounded
   | "E" => pure .error
-  | "O" => pure (.optimal (← pVec))
+  | "O" =>
+    let v ← pVecOpt
+    if v.any Option.isNone then
+      throw "PROPFAIL [C10] the LP layer returned Optimal with a non-finite coordinate (inf / nan): not a point of the set"
+    pure (.optimal (v.map (·.getD 0)))
   | _ => throw s!"bad LP answer '{t}'"
 
 def pLog : P (List LogEntry) := do
@@ -167,6 +171,16 @@ def kidsReducible : PKids Q → Option Nat
   | .cons (some t) r => match reducible t false with
     | some i => some i
     | none => kidsReducible r
+end
+
+mutual
+/-- some decision has a larger arena index than one of its decision children (indices not in insertion order) -/
+def inverted : PT Q → Bool
+  | .node i _ ks => kidsInverted ks i
+def kidsInverted : PKids Q → Nat → Bool
+  | .nil, _ => false
+  | .cons none r, p => kidsInverted r p
+  | .cons (some t) r, p => (!t.kids.allNone && t.idx < p) || inverted t || kidsInverted r p
 end
 
 /-! ### parsing of one step -/
@@ -435,6 +449,10 @@ def judgeHist : P Verdict := do
           let logS := log.map (fun e => s!"[{e.poly.mat.map showVec}|{showVec e.poly.bias} real={showAns e.real} ret={showAns e.ret}]")
           return .propfail s!"[C11] step {step}: with solver faults the tree has {t'.size} nodes, fewer than the fault-free result {b}{if isTotal t then "" else " (partial tree: the fault-free run keeps an infeasible only-child sub-tree whole)"} BEFORE {showTree t} AFTER {showTree t'} LOG {logS} TRACE {trace.map (fun e => s!"{e.1}:{showState e.2}")}"
     | .reduce =>
+      if t'.size < t.size then tag "merged"
+      if inverted t then tag "inverted"
+      if inverted t && t'.size + 4 ≤ t.size then tag "inverted-cascade"
+      if t'.size + 4 ≤ t.size then tag "cascade"
       if t'.size > t.size then return .propfail s!"[C08] step {step}: reduce increased the number of nodes"
       if let some i := reducible t' true then
         return .propfail s!"[C08] step {step}: after reduce decision {i} still has two terminal children with the same map"
